@@ -40,6 +40,7 @@ DOCS = [
     ('et', '<a/>'),
     ('et', '<a><b>1</b>t1<b>2</b>t2<c/>t3</a>'),
     ('lxml', '<a><b>x</b>tail<!--c--><?pi y?><b/>end</a>'),
+    ('et', '<a><b>x&#13;y</b>t&#13;<c>&#13;</c>z<b/></a>'),      # U+000D in text and tail (fn:serialize marks it in a deep copy)
 ]
 
 
@@ -1067,6 +1068,8 @@ def canon_one(x, depth=0) -> str:
     from elementpath.xpath_tokens import XPathFunction, XPathMap, XPathArray
     from elementpath.xpath_nodes import XPathNode
     if hasattr(x, 'tag'):
+        if callable(x.tag):      # lxml / ElementTree comment and processing instruction factories
+            return f'<{getattr(x.tag, "__name__", "special")}:{x.text}>'
         return f'<{x.tag}>'
     if hasattr(x, 'getroot'):
         return '<document>'
@@ -1446,7 +1449,7 @@ def context_reuse_histories(run: Run) -> None:
             root = root.getroottree() if hasattr(root, 'getroottree') else __import__('xml.etree.ElementTree').etree.ElementTree.ElementTree(root)
         v = rng.randrange(1, 4)
         ctx = XPathContext(root, namespaces=dict(NS), variables={'v': v})
-        s0, hist, raised_paths = state(ctx), [], False
+        s0, hist = state(ctx), []
         for _ in range(rng.randrange(4, 12)):
             e = rng.choice(exprs)
             hist.append(e)
@@ -1458,12 +1461,7 @@ def context_reuse_histories(run: Run) -> None:
             fresh = run_one(parser.parse(e), XPathContext(root, namespaces=dict(NS), variables={'v': v}))
             run.stats.count('context-reuse-steps')
             case = {'document': DOCS[d][1], 'v': v, 'expressions_on_one_context': list(hist)}
-            # trigger of finding F05d (until fix-c05-3 is picked): an `instance of` / `treat as` was evaluated on this context
-            tags = ['F05d'] if any(re.search(r'\b(instance\s+of|treat\s+as)\b', x) for x in hist) else []
-            # trigger of finding F05e (same): a path starting with `/` raised on this context
-            raised_paths = raised_paths or (got.startswith('ERR') and e.lstrip('( ').startswith('/'))
-            if raised_paths and not tags:
-                tags = ['F05e']
+            tags = []
             if got != fresh:
                 run.disagree(Disagreement(case, got, None, spec=fresh, what='reused-context-vs-fresh', site='XPathContext focus',
                                           tags=tags))
